@@ -189,6 +189,27 @@ pub fn c14_lists(s: &Setting, th: bool) -> Vec<Vec<Param>> {
             }
         }
     }
+    // the per-level maxima everywhere (largest signatures the build was sized for) with one level
+    // raised by one step: must be refused or work correctly, never overflow a buffer
+    let l = s.levels.min(3);
+    let maxed: Vec<Param> = (0..l).map(|i| p(s.ws[i], s.heights[i].min(if i == 0 { 10 } else { 5 }))).collect();
+    if maxed.iter().all(|x| x.lms != 0) {
+        lists.push(maxed.clone());
+        for i in 0..l {
+            if let Some(w) = prev_w(s.ws[i]) {
+                let mut x = maxed.clone();
+                x[i] = p(w, s.heights[i].min(if i == 0 { 10 } else { 5 }));
+                lists.push(x);
+            }
+            if let Some(h) = next_height(s.heights[i]) {
+                if h <= 10 {
+                    let mut x = maxed.clone();
+                    x[i] = p(s.ws[i], h);
+                    lists.push(x);
+                }
+            }
+        }
+    }
     lists.sort();
     lists.dedup();
     lists
@@ -434,6 +455,9 @@ pub fn c15_judge(s: &Setting, task: &Task, r: &Value) -> Vec<Viol> {
             }
             if cbs.len() != 1 || cbs[0] != succ {
                 v.push(Viol::new("C15:callback-protocol-on-reject", format!("{} callback invocations on the rejecting path", cbs.len())));
+            }
+            if after.len() != before.len() || after[..after.len() - n] != before[..before.len() - n] {
+                v.push(Viol::new("C15:touched-outside-trailer:on-reject", "bytes before the last n bytes of the message were changed on the path where the callback rejects"));
             }
         } else if res != "ok" {
             v.push(Viol::new(format!("C15:refused-well-formed:{}", nk), format!("sign_mut refused a message of {} bytes with an all-zero {}-byte trailer", before.len(), n)));
